@@ -49,7 +49,10 @@ CHECKS = {
                      "ticks: byte-identical retransmissions, non-decreasing spacing, bounded count, give-up with "
                      "teardown, never re-sent once answered; DPD probe timing against the last authentic input with "
                      "peer traffic at every tick offset; IKE lifetime / rekey / delete timing at both jitter extremes "
-                     "with answering, silent and colliding peers; peer crash after every step of a reference session."),
+                     "with answering, silent and colliding peers; peer crash after every step of a reference session; the answer "
+                     "arriving in the very pass in which the timer of transmission k runs out; local send failures (every "
+                     "subset of the retransmissions, and lasting); second copies of earlier answers while a retried request "
+                     "is outstanding."),
     'C03': dict(level='model_checking', technique=MC + "; exhaustive adversarial injection alphabet in every state", engine='world-explorer',
                 text="In every state of the one-trigger exploration (both roles, every request-outstanding state, REKEYED, "
                      "the rekeyed successor, half-open) and for every IKE_SA with keys: forged cleartext of every exchange "
@@ -67,7 +70,7 @@ CHECKS = {
                      "and truncated netlink frames; sendto (gaierror / ENETUNREACH / EPERM) and netlink failures at "
                      "every call index. Oracle: main_loop is left only by the harness's stop exception, executed lines "
                      "per iteration stay under a cap, and the session completes (or, where the peer itself misbehaved, "
-                     "a fresh negotiation succeeds after the time-outs). Also: 180 orders of the legitimate operations run without hostile input, genuine CREATE_CHILD_SA requests re-protected with other SPI sizes, a blind-sender clause (input naming no SPI in use must not disturb the session even from the peer's address), and a per-iteration watchdog so that a hanging daemon is reported and cannot hang the check."),
+                     "a fresh negotiation succeeds after the time-outs). Also: 180 orders of the legitimate operations run without hostile input, genuine CREATE_CHILD_SA requests re-protected with other SPI sizes, a blind-sender clause (input naming no SPI in use must not disturb the session even from the peer's address), and a per-iteration watchdog so that a hanging daemon is reported and cannot hang the check. The kernel corpus includes genuine soft / hard EXPIREs of every SPI the daemon holds, at every position."),
     'C04': dict(level='exploration', technique=EX + " (wire-only observer re-deriving every key)",
                 text="Real two-endpoint exchanges for every PRF x INTEG x AES length x DH group, every CHILD suite with "
                      "and without PFS, rekey chains, nonce lengths / patterns and DH values with leading zero octets "
@@ -112,7 +115,7 @@ CHECKS = {
                      "DH with both sides and relaying or forging AUTH. Observer (own codec and key schedule): an endpoint "
                      "that ends up established or installs an SA accepted an AUTH that verifies under its configured "
                      "credential and identity over the peer's IKE_SA_INIT message as it saw it, its own nonce and "
-                     "prf(SK_p, ID'), and what it saw means what the honest peer sent."),
+                     "prf(SK_p, ID'), and what it saw means what the honest peer sent. Plus an honest initiator of another make offering two IKE proposals whose SA payload is rewritten on the path (6 rewritings), and two connections of one daemon towards one remote address on two local addresses set up one after the other with the right / the other connection's credentials."),
     'C15': dict(level='model_checking', technique="exhaustive enumeration of configurations, ACQUIRE flows and restart points "
                 "on real controllers over the model kernel", engine='world-explorer',
                 text="90 configurations (1-2 connections incl. two local addresses with one peer, 1-2 protect entries, "
@@ -120,7 +123,7 @@ CHECKS = {
                      "start-up == exactly out/in/fwd per entry, SAD empty, both empty after close(); ACQUIRE for every "
                      "outbound policy with flows at the corners of the entry, without / with an established IKE_SA / with "
                      "a sibling connection's IKE_SA: right peer, IKE_SA re-used, entry's proposal / mode / selectors / "
-                     "lifetime installed; unknown index ignored; restart of either daemon after every step of a session."),
+                     "lifetime installed; unknown index ignored; restart of either daemon after every step of a session; an ACQUIRE in the pass after the IKE_SA with that peer was given up; entries differing in one selector dimension; an entry added / removed between two incarnations."),
     'C18': dict(level='exploration', technique=EX,
                 text="Responder with 0..threshold+3 half-open IKE_SAs (threshold measured, not assumed) x request variants: "
                      "no cookie, exact cookie, every single-octet corruption, truncated / extended / empty, the exact cookie "
@@ -135,7 +138,7 @@ CHECKS = {
                      "rekey} x {A, B} from plain / COOKIE / INVALID_KE starts: after each negotiation the SAs decoded from "
                      "both daemons' XFRM_MSG_NEWSA bytes must be the same set field by field (SPI, addresses, protocol, "
                      "mode, algorithms, key bytes, selectors), inbound/outbound selectors reversed, IKE key rings equal, and "
-                     "the initiator-to-responder SA must carry the first KEYMAT keys (ref/keys.py)."),
+                     "the initiator-to-responder SA must carry the first KEYMAT keys (ref/keys.py). Histories may contain an authentic request that arrives from another source address."),
     'C05': dict(level='exploration', technique=EX,
                 text="Full header product x payload lists up to length 2 (thorough 3) over 33 payload instances, in clear "
                      "and inside SK: to_bytes == independent encoder byte for byte, parse maps back, idempotence of "
